@@ -108,8 +108,19 @@ MedB(p) ==
     objs |-> << [clen |-> sh[1], oti |-> Oti(sc, sh[2], sh[3], IF sc = 0 THEN 0 ELSE p[3], p[5]), count |-> p[6], md5 |-> TRUE] >>,
     ops |-> << <<"add", 1>>, <<"publish">>, <<"drain">> >> ]
 
-SessParams == CASE Family = "medium" -> MedP [] Family = "wide" -> WideP [] Family = "small" -> SmallP [] Family = "mem" -> MemP [] Family = "clean" -> CleanP [] Family = "car" -> CarP [] Family = "exp" -> ExpP
-SessBuild(p) == CASE Family = "medium" -> MedB(p) [] Family = "wide" -> WideB(p) [] Family = "small" -> SmallB(p) [] Family = "mem" -> MemB(p) [] Family = "clean" -> CleanB(p) [] Family = "car" -> CarB(p) [] Family = "exp" -> ExpB(p)
+\* sessions for the expiry check with an FDT instance of several packets that is repeated by the FDT carousel before it
+\* expires (duration 60 s, repeated every p[1] s), and an object whose transfer starts after the expiry (p[2])
+Exp2P == {20, 50} \X {55, 70, 90} \X BOOLEAN
+Exp2B(p) ==
+  [ fam |-> "exp2",
+    cfg |-> [scheme |-> 0, E |-> 400, B |-> 8, interleave |-> 1, queues |-> << <<0, 1>> >>, mode |-> "full",
+             tick_us |-> 1000000, fdt_dur |-> 60, sct |-> TRUE, fdt_car |-> <<"delay", p[1]>>],
+    objs |-> << [clen |-> 8, oti |-> Oti(0, 4, 2, 0, p[3]), start |-> p[2]] >>,
+    ops |-> << <<"add", 1>>, <<"publish">>, <<"drain">>, <<"adv", 25>>, <<"drain">>, <<"adv", 25>>, <<"drain">>, <<"adv", 25>>, <<"drain">>,
+               <<"adv", 25>>, <<"drain">> >> ]
+
+SessParams == CASE Family = "exp2" -> Exp2P [] Family = "medium" -> MedP [] Family = "wide" -> WideP [] Family = "small" -> SmallP [] Family = "mem" -> MemP [] Family = "clean" -> CleanP [] Family = "car" -> CarP [] Family = "exp" -> ExpP
+SessBuild(p) == CASE Family = "exp2" -> Exp2B(p) [] Family = "medium" -> MedB(p) [] Family = "wide" -> WideB(p) [] Family = "small" -> SmallB(p) [] Family = "mem" -> MemB(p) [] Family = "clean" -> CleanB(p) [] Family = "car" -> CarB(p) [] Family = "exp" -> ExpB(p)
 
 -----------------------------------------------------------------------------
 (* extreme but well-formed packets, built with the wire-format specification (family c04x):                   *)
@@ -178,6 +189,9 @@ ChanK(s) ==
     [] Family = "clean"   -> BOOLEAN \X BOOLEAN
     [] Family = "c04"     -> (0..NP(s)) \X ({<<"fuzzhdr", i>> : i \in 1..NP(s)} \cup {<<"truncall", i>> : i \in 1..NP(s)} \cup {<<"xmlfdt", v>> : v \in 0..29}
                                            \cup {<<"mutseq", x>> : x \in 1..6} \cup {<<"garbage", 1>>})
+    \* which packets of the FIRST emission of the first instance arrive (only its first packet / all / none) x later
+    \* instances lost x receiver clock skew
+    [] Family = "expiry2" -> {"first", "all", "none"} \X BOOLEAN \X {-86400, 0, 7}
     \* pseudo-random loss / duplication: seed x loss rate (percent) x duplication rate (percent)
     [] Family = "rloss"   -> (1..12) \X {3, 10, 25, 45} \X {0, 15}
     [] Family = "c04x"    -> (1..Len(XSchemes)) \X (1..Len(XB)) \X (1..Len(XE))
@@ -204,6 +218,16 @@ ChanBuild(s, k) ==
                                         \o (IF k[5] = "fwd" /\ k[4] < n /\ k[4] % 2 = 0 THEN << <<"d">> >> ELSE <<>>)]
     [] Family = "clean"   -> [sid |-> sid, fam |-> "clean", rcfg |-> [once |-> k[1]], w |-> [md5 |-> k[2]], sched |-> << <<"seq", 1, n>> >>]
     [] Family = "c04"     -> [sid |-> sid, fam |-> "c04", prefix |-> k[1], adv |-> k[2]]
+    [] Family = "expiry2" ->
+         LET fdtIdx == {i \in 1..n : Sess[s].pkts[i].k = "fdt"}
+             first == Sess[s].pkts[CHOOSE i \in fdtIdx : \A j \in fdtIdx : i <= j]
+             keep(i) == LET q == Sess[s].pkts[i] IN
+                        IF q.k # "fdt" THEN TRUE
+                        ELSE IF q.id # first.id THEN ~k[2]
+                        ELSE IF q.t > first.t THEN TRUE                    \* a repetition of the first instance
+                        ELSE (k[1] = "all" \/ (k[1] = "first" /\ q.sbn = 0 /\ q.esi = 0))
+         IN [sid |-> sid, fam |-> "expiry2", rcfg |-> [expiry |-> TRUE], skew |-> k[3],
+             sched |-> << <<"skew", k[3]>> >> \o FlattenSeq([i \in 1..n |-> IF keep(i) THEN << <<"p", i>> >> ELSE <<>>])]
     [] Family = "rloss"   ->
          \* deterministic hash of (seed, packet index) in 0..99; the FDT packets are lost like any other
          LET H(a, i) == (((a * 7919 + i * 104729 + i * i * 31 + a * i * 977) % 10007) * 100) \div 10007
